@@ -18,7 +18,7 @@ RULE = (
     "classes, easy counts, 4 cfg; for the zero clause also lattices with ties, touching classes (min pos == max neg) and classes one ulp apart. "
     "Non-trivial: both classes non-empty (always) and not (separated with e==0 by the shortcut) or a zero-clause case; distinct = hash of inputs."
 )
-ASSUMPTIONS = ["finite scores of moderate magnitude", "FPR/FNR at a threshold are taken from the object's own rate methods (decided by C01)"]
+ASSUMPTIONS = ["crossing/equivariance clauses: finite scores of moderate magnitude (all non-zero |s| in [1e-150, 1e150]); zero-EER clause: all finite scores incl. 1.7e308 and subnormals", "FPR/FNR at a threshold are taken from the object's own rate methods (decided by C01)"]
 FLIP = {"pos": "neg", "neg": "pos"}
 
 
@@ -29,7 +29,7 @@ def install(ctx):
 def cases(ctx):
     rng = ctx.rng
     for i in range(ctx.n(1400, 5000)):
-        mode = str(rng.choice(["perm", "gauss", "separated", "inverted", "ties", "touching", "ulp", "tiny", "uint", "int8wide", "mixed"]))
+        mode = str(rng.choice(["perm", "gauss", "separated", "inverted", "ties", "touching", "ulp", "tiny", "uint", "int8wide", "mixed", "huge", "subnormal", "negzero"]))
         npos = int(rng.integers(1, 26))
         nneg = int(rng.integers(1, 26))
         if mode == "tiny":
@@ -50,8 +50,8 @@ def cases(ctx):
                 pos, neg = allv[:npos], allv[npos:]
         elif mode2 == "ties":
             pos, neg, _ = gen.scores(rng, 1, 1, maxn=12, kinds=["lattice", "pool5", "intdtype", "scaled"])
-        elif mode2 in ("uint", "int8wide", "mixed"):
-            pos, neg, _ = gen.scores(rng, 1, 1, maxn=20, kinds=[{"uint": "uint", "int8wide": "int8wide", "mixed": "mixed_int_float"}[mode2]])
+        elif mode2 in ("uint", "int8wide", "mixed", "huge", "subnormal", "negzero"):
+            pos, neg, _ = gen.scores(rng, 1, 1, maxn=20, kinds=[{"mixed": "mixed_int_float"}.get(mode2, mode2)])
         elif mode2 == "touching":
             pos, neg, _ = gen.scores(rng, 1, 1, maxn=12, kinds=["touching"])
         else:  # classes one ulp apart
@@ -96,7 +96,14 @@ def execute(ctx, case):
         np.random.seed(case["_seed"])
         s.bootstrap_ci("eer", config=BootstrapConfig(nb_samples=12, bootstrap_method="quantile"))  # 12 eer() calls on resamples (ties!)
         return True
-    t, e = s.eer()  # judged by M-eer
+    moderate = monitors.moderate_magnitude(s)  # the crossing and equivariance clauses are claimed for moderate magnitudes only
+    try:
+        t, e = s.eer()  # judged by M-eer
+    except Exception:
+        if moderate:
+            raise
+        sess.skip("R-eer-equiv", "eer() raised on scores near the float range limits (outside the claimed magnitudes)")
+        return False
     tf = monitors.tie_free(s)
     posf, negf = pos.astype(float), neg.astype(float)
     allv = np.sort(np.concatenate([posf, negf]))
@@ -104,9 +111,9 @@ def execute(ctx, case):
     # compared (C02: "a few ulp"). Adjacent floats behave like a tie block: interpolation between them cannot be represented,
     # so the crossing found depends on rounding (the crossing clauses of M-eer still hold there and are still judged).
     well_separated = len(allv) < 2 or float(np.diff(allv).min()) > 1e-6 * max(1.0, float(np.abs(allv).max()))
-    if tf and not well_separated:
-        sess.skip("R-eer-equiv", "scores closer than the threshold resolution")
-    if tf and well_separated:
+    if tf and not (well_separated and moderate):
+        sess.skip("R-eer-equiv", "scores closer than the threshold resolution, or of extreme magnitude")
+    if tf and well_separated and moderate:
         span = max(1.0, float(np.ptp(allv)), float(np.abs(allv).max()))
         # The EER comes from a bisection with xtol=1e-10 and the threshold is threshold_at_fpr(eer), whose slope in the
         # target is at most N_neg_all * (largest score gap): that much of the threshold is not determined by the input.
